@@ -1,0 +1,85 @@
+//go:build verif
+
+// Contracts for the deductive verifier in /verif (gvc). This file contains comments only:
+// it adds no code to the package, with or without the "verif" build tag.
+
+package cmdapi
+
+//@ import "context"
+//@ import "database/sql"
+//@ import "ariga.io/atlas/sql/migrate"
+//@ import "ariga.io/atlas/sql/sqlclient"
+//@ import cmdmigrate "ariga.io/atlas/cmd/atlas/internal/migrate"
+
+// ---------------------------------------------------------------------------------------
+// C13 / C10: transaction typestate of `migrate apply`
+
+//@ ghost var GvcTxBegun int
+//@ ghost var GvcTxOpen int
+//@ ghost var GvcCommits int
+//@ ghost var GvcRollbacks int
+//@ ghost var GvcLastTx *sqlclient.TxClient
+
+//@ extern func (c *sqlclient.Client) Tx(ctx context.Context, opts *sql.TxOptions) (t *sqlclient.TxClient, err error)
+//@   effect if err == nil { GvcTxBegun++; GvcTxOpen++; GvcLastTx = t }
+//@   ensures err == nil ==> t != nil && GvcFresh(t) && t.Client != nil
+//@ extern func (t *sqlclient.TxClient) Commit() (err error)
+//@   effect GvcCommits++; GvcTxOpen--
+//@ extern func (t *sqlclient.TxClient) Rollback() (err error)
+//@   effect GvcRollbacks++; GvcTxOpen--
+
+// the revision store returned by entRevisions talks to the client it was given
+//@ spec func gvcClientOf(rrw migrate.RevisionReadWriter) *sqlclient.Client { panic("uninterpreted") }
+//@ func gvcClientOf(rrw migrate.RevisionReadWriter) (c *sqlclient.Client)
+//@   trusted
+//@   pure
+//@ func entRevisions(ctx context.Context, c *sqlclient.Client, flag string) (rrw cmdmigrate.RevisionReadWriter, err error)
+//@   trusted
+//@   ensures err == nil ==> rrw != nil && gvcClientOf(rrw) == c
+
+//@ func txmodeFor(f *migrate.LocalFile) (m string, err error)
+//@   trusted
+//@   pure
+//@   ensures err == nil ==> m == "" || m == txModeNone || m == txModeFile
+
+//@ func (tx *tx) modeFor(f migrate.File) (m string, err error)
+//@   requires tx != nil
+//@   pure
+//@   ensures non-local-file-uses-global: !GvcIs[*migrate.LocalFile](f) ==> err == nil && m == tx.mode
+//@   ensures directive-cannot-escape-all: err == nil && tx.mode == txModeAll ==> m == txModeAll
+//@   ensures effective: err == nil ==> m == tx.mode || m == txModeNone || m == txModeFile
+
+//@ func (tx *tx) driverFor(ctx context.Context, f migrate.File) (d migrate.Driver, rrw migrate.RevisionReadWriter, err error)
+//@   requires tx != nil && tx.c != nil
+//@   requires tx.tx != nil ==> tx.txrrw != nil && gvcClientOf(tx.txrrw) == tx.tx.Client
+//@   modifies tx.tx, tx.txrrw, GvcTxBegun, GvcTxOpen, GvcLastTx
+//@   ensures dry-run-opens-nothing: tx.dryRun ==> err == nil && GvcIs[*dryRunDriver](d) && GvcIs[*dryRunRevisions](rrw) && GvcTxBegun == old(GvcTxBegun) && tx.tx == old(tx.tx)
+//@   ensures none-mode-uses-plain-connection: !tx.dryRun && err == nil && gvcModeOf(tx, f) == txModeNone ==>
+//@           d == tx.c.Driver && rrw == tx.rrw && GvcTxBegun == old(GvcTxBegun) && tx.tx == old(tx.tx)
+//@   ensures file-mode-opens-one: !tx.dryRun && err == nil && gvcModeOf(tx, f) == txModeFile ==>
+//@           old(tx.tx) == nil && tx.tx != nil && GvcTxBegun == old(GvcTxBegun)+1
+//@   ensures all-mode-opens-at-most-one: !tx.dryRun && err == nil && gvcModeOf(tx, f) == txModeAll ==>
+//@           tx.tx != nil && (old(tx.tx) != nil ==> tx.tx == old(tx.tx) && GvcTxBegun == old(GvcTxBegun)) && (old(tx.tx) == nil ==> GvcTxBegun == old(GvcTxBegun)+1)
+//@   ensures same-transaction: !tx.dryRun && err == nil && gvcModeOf(tx, f) != txModeNone ==>
+//@           d == tx.tx.Driver && rrw == tx.txrrw && gvcClientOf(rrw) == tx.tx.Client
+//@   ensures failure-begins-at-most-one: err != nil ==> GvcTxBegun <= old(GvcTxBegun)+1
+//@ spec func gvcModeOf(t *tx, f migrate.File) string { m, _ := t.modeFor(f); return m }
+
+//@ func (tx *tx) mayRollback(e error) (err error)
+//@   requires tx != nil
+//@   modifies GvcRollbacks, GvcTxOpen
+//@   ensures error-kept: (err != nil) == (e != nil)
+//@   ensures rolls-back-open-tx-on-error: e != nil && tx.tx != nil ==> GvcRollbacks == old(GvcRollbacks)+1
+//@   ensures otherwise-nothing: !(e != nil && tx.tx != nil) ==> GvcRollbacks == old(GvcRollbacks) && err == e
+
+//@ func (tx *tx) commit() (err error)
+//@   requires tx != nil
+//@   modifies tx.tx, tx.txrrw, GvcCommits, GvcTxOpen
+//@   ensures commits-open-tx: old(tx.tx) != nil ==> GvcCommits == old(GvcCommits)+1 && tx.tx == nil && tx.txrrw == nil
+//@   ensures nothing-open-nothing-done: old(tx.tx) == nil ==> GvcCommits == old(GvcCommits) && err == nil && tx.tx == nil
+
+//@ func (tx *tx) mayCommit() (err error)
+//@   requires tx != nil
+//@   modifies tx.tx, tx.txrrw, GvcCommits, GvcTxOpen
+//@   ensures per-file-transaction-is-committed: old(tx.tx) != nil && !tx.dryRun && tx.mode != txModeAll ==> GvcCommits == old(GvcCommits)+1 && tx.tx == nil
+//@   ensures spanning-transaction-stays-open: tx.mode == txModeAll || tx.dryRun ==> tx.tx == old(tx.tx) && GvcCommits == old(GvcCommits)
